@@ -65,7 +65,7 @@ def note(rng, chord=False):
 
 UPPER_CORE = ["TR(1)", "TR(2)", "TR(3)", "Track(5)", "TRACK(0)", "CH(1)", "CH(2)", "CH(10)", "Channel(16)", "@1;", "@5;", "@(25)", "@40;",
               "Tempo(120)", "TEMPO=90;", "Tempo(500)", "TimeSignature(3,4)", "TimeSignature(6,8)", "KeyShift(2)", "TrackKey(-1)",
-              "KF+(fc)", "KF-(b)", "KeyFlag=(0,0,0,0,0,0,0)", "TrackSync;", "TIME(2:1:0)", "TIME(96)", "MeasureShift(1)", "vAdd(5)", "qAdd(3);",
+              "KF+(fc)", "KF-(b)", "KeyFlag=(0,0,0,0,0,0,0)", "TrackSync;", "TrackSync", "TRACK_SYNC", "TIME(2:1:0)", "TIME(96)", "MeasureShift(1)", "vAdd(5)", "qAdd(3);",
               # an expression-valued argument closed by a LINE BREAK (the property's third way of closing it)
               "@2\n", "@7\n", "TEMPO=100\n", "TR=2\n", "KeyShift=1\n", "CH=3\n"]
 UPPER_OTHER = ["y7,100;", "y10,20;", "y7,90\n", "TEMPO=80\n", "M(64)", "V(100)", "P(32)", "EP(90)", "REV(40)", "PB(100)", "p(64)", "BR(12)", "ResetGM;", "ResetGM()",
@@ -189,6 +189,8 @@ def make_layout(rng, items, rich):
             s = s + rng.choice([" ", "\n", ";"])
         if s == "" and p.endswith("0") and t.startswith("o"):
             s = rng.choice([" ", "\n", ";"])      # `t0` `o4` written without a separator is the octal literal 0o4
+        if s == "" and p in ("TrackSync", "TRACK_SYNC"):
+            s = rng.choice([" ", "\n", ";", "|", "\t"])    # a bare word and the next command need a separator between them
         if s == "" and p.endswith("{") and t.startswith('"'):
             s = rng.choice([" ", "\n"])           # `{"` opens a string literal for sutoton::convert
         lays.append(s)
@@ -363,7 +365,9 @@ def run(ctx):
     singles = []
     firsts = ["c", "c4", "c+", "c4.", "c8,80", "c&", "r", "r4", "n60,4", "l8", "o5", "v100", "q90", "t1", ">", "(", ")", "`", "[2", ":", "]",
               "'", "'4", "TR(2)", "@5;", "@(5)", "Tempo(120)", "TEMPO=90;", "TrackSync;", "KF+(fc)", "TIME(2:1:0)", "ResetGM;", "y7,100;", "M(64)",
-              "PRINT(1)", "{c d}4", "Sub{c}", "#M={c};", "v++"]
+              "PRINT(1)", "{c d}4", "Sub{c}", "#M={c};", "v++",
+              # commands WITHOUT any argument list: what follows them (also a '(' after blanks) is the next command
+              "TrackSync", "TRACK_SYNC"]
     lays = [" ", "\t", "\r", "\n", "|", ";", "　", "\r\n", "\n\n", " // x\n", " /* x */ ", " ## x\n", " # x\n", " #- x\n", " /// x\n",
             " /** x */ ", "\n// ^\n", " /*\n\n*/ ", ";;", "||", " | ", "\n# c d e\n", "\n#-----\n", "\n##\n",
             # comments with no text at all
@@ -373,6 +377,13 @@ def run(ctx):
         post = " ]" if f in ("[2", ":") else ("'" if f == "'" else "")
         for l in lays:
             singles.append(("%s%s %sd%s" % (pre, f, "", post), "%s%s%s%sd%s" % (pre, f, l, "", post)))
+    # the same with other FOLLOWING commands (a '(' after blanks is the velocity-down command, not an argument list) after
+    # commands that take no argument list or whose list is closed
+    for f in ["c", "c+", "r", ">", "TrackSync", "TRACK_SYNC", "TrackSync;", "@5;", "@(5)", "TR(2)", "Tempo(120)", "KF+(fc)", "TIME(2:1:0)",
+              "M(64)", "{c d}4", "Sub{c}", "ResetGM;", "v++"]:
+        for nxt in ["(d)", "( d )", ">d", "'ce'", "`d"]:
+            for l in lays:
+                singles.append(("%s %s e" % (f, nxt), "%s%s%s e" % (f, l, nxt)))
     lines = []
     for a, b in singles:
         for s in (a, b):
